@@ -1,5 +1,5 @@
 (* Dispatch.v — one entry point for the OCaml driver: property number -> functions. *)
-From Molt Require Import Model.Base Model.Tokenizer Check.C05 Check.C02 Check.C01 Check.C03 Check.C09 Check.C11 Check.C17 Check.C08 Check.C16 Check.C15 Check.C18 Check.C19.
+From Molt Require Import Model.Base Model.Tokenizer Check.C05 Check.C02 Check.C01 Check.C03 Check.C09 Check.C11 Check.C17 Check.C08 Check.C16 Check.C15 Check.C18 Check.C19 Check.C10 Check.C12 Check.C07 Check.C04.
 
 Record prop_fns := {
   pf_model_obs : term -> term;
@@ -15,14 +15,20 @@ Definition dispatch (p : N) : prop_fns :=
   match p with
   | 3%N => {| pf_model_obs := c03_model_obs; pf_spec_ok := c03_spec_ok;
               pf_known := c03_known; pf_nontrivial := c03_nontrivial |}
+  | 4%N => {| pf_model_obs := c04_model_obs; pf_spec_ok := c04_spec_ok;
+              pf_known := c04_known; pf_nontrivial := c04_nontrivial |}
   | 5%N => {| pf_model_obs := c05_model_obs; pf_spec_ok := c05_spec_ok;
               pf_known := c05_known; pf_nontrivial := c05_nontrivial |}
   | 1%N => {| pf_model_obs := c01_model_obs; pf_spec_ok := c01_spec_ok;
               pf_known := c01_known; pf_nontrivial := c01_nontrivial |}
   | 2%N => {| pf_model_obs := c02_model_obs; pf_spec_ok := c02_spec_ok;
               pf_known := c02_known; pf_nontrivial := c02_nontrivial |}
+  | 7%N => {| pf_model_obs := c07_model_obs; pf_spec_ok := c07_spec_ok;
+              pf_known := c07_known; pf_nontrivial := c07_nontrivial |}
   | 8%N => {| pf_model_obs := c08_model_obs; pf_spec_ok := c08_spec_ok;
               pf_known := c08_known; pf_nontrivial := c08_nontrivial |}
+  | 12%N => {| pf_model_obs := c12_model_obs; pf_spec_ok := c12_spec_ok;
+               pf_known := c12_known; pf_nontrivial := c12_nontrivial |}
   | 15%N => {| pf_model_obs := c15_model_obs; pf_spec_ok := c15_spec_ok;
                pf_known := c15_known; pf_nontrivial := c15_nontrivial |}
   | 16%N => {| pf_model_obs := c16_model_obs; pf_spec_ok := c16_spec_ok;
@@ -33,6 +39,8 @@ Definition dispatch (p : N) : prop_fns :=
                pf_known := c19_known; pf_nontrivial := c19_nontrivial |}
   | 9%N => {| pf_model_obs := c09_model_obs; pf_spec_ok := c09_spec_ok;
               pf_known := c09_known; pf_nontrivial := c09_nontrivial |}
+  | 10%N => {| pf_model_obs := c10_model_obs; pf_spec_ok := c10_spec_ok;
+               pf_known := c10_known; pf_nontrivial := c10_nontrivial |}
   | 11%N => {| pf_model_obs := c11_model_obs; pf_spec_ok := c11_spec_ok;
                pf_known := c11_known; pf_nontrivial := c11_nontrivial |}
   | 17%N => {| pf_model_obs := c17_model_obs; pf_spec_ok := c17_spec_ok;
